@@ -164,7 +164,7 @@
 (define bag-partition! bag-partition)
 
 (define (bag-copy bag)
-  (make-bag (hash-table-copy (bag-table bag))
+  (make-bag (hash-table-copy (bag-table bag) #t)
             (bag-comparator bag)))
 
 (define (bag->list bag)
